@@ -711,7 +711,7 @@ theorem src_ini_syntax :
     Gen.iniHeaderInnerStart = 1 ∧ Gen.iniHeaderInnerLen = -1 ∧ Gen.iniHeaderTrims = ['l', 'r'] ∧ Gen.iniPrefixSuffix = ['.'] ∧
     Gen.iniCommentStart = '#' ∧ Gen.iniAssign = '=' ∧ Gen.iniKeyLen = 0 ∧ Gen.iniKeyTrims = ['l', 'r'] ∧
     Gen.iniValueStart = 1 ∧ Gen.iniValueTrims = ['l'] ∧ (∀ c, isQuote c = inSet Gen.iniQuotes c) ∧
-    Gen.iniQuoteOpenDrop = 1 ∧ Gen.iniQuoteCloseLen = -1 ∧ Gen.iniQuoteLoopUntilTrimmedEndsWithQuote = true ∧
+    Gen.iniQuoteOpenDrop = 1 ∧ Gen.iniQuoteCloseLen = -1 ∧ Gen.iniQuoteCloseTrims = ['r'] ∧ Gen.iniQuoteLoopUntilTrimmedEndsWithQuote = true ∧
     Gen.iniContinuationJoin = ['\n'] ∧ Gen.iniDuplicateError = "ParameterTreeParserError" ∧ Gen.iniStoreThenRemember = true ∧
     (∀ ow c text rest st, c ∈ Gen.iniSkipFirst → lineStep ow (c :: text) rest st = .ok (st, rest)) ∧
     (∀ ow inner junk rest st, Gen.iniHeaderClose ∉ inner →
@@ -719,7 +719,7 @@ theorem src_ini_syntax :
         .ok ({ st with pfx := (let p := rtrim (ltrim inner); if p = [] then [] else p ++ Gen.iniPrefixSuffix) }, rest)) := by
   have hq : Gen.iniQuotes = quoteList := by decide
   refine ⟨by decide, by decide, by decide, by decide, by decide, by decide, by decide, by decide, by decide, by decide,
-    by decide, by decide, by decide, ?_, by decide, by decide, by decide, by decide, by decide, by decide, ?_, ?_⟩
+    by decide, by decide, by decide, ?_, by decide, by decide, by decide, by decide, by decide, by decide, by decide, ?_, ?_⟩
   · rw [hq]; exact isQuote_eq_inSet
   · intro ow c text rest st hc
     have : c = '#' := by
